@@ -263,7 +263,7 @@ fn grid(ctx: &Ctx) {
 
 pub fn run(ctx: &Ctx) -> i32 {
     grid(ctx);
-    let n = ctx.tier.pick(5_000u64, 500_000u64);
+    let n = ctx.tier.pick(5_000u64, 5_000_000u64);
     fw::par_for(n, 64, |i| {
         let mut rng = Rng::for_case(ctx.seed, 0xC06, i);
         let b = gen(&mut rng);
